@@ -67,7 +67,8 @@ def gen_scheme(rng, n=None, topology=None):
     n = int(rng.integers(2, 6)) if n is None else n
     topology = str(rng.choice(TOPOLOGIES)) if topology is None else topology
     comps = [f"s{i + 1}" for i in range(n)]
-    rate = lambda: float(10.0 ** rng.uniform(-3, 3))  # noqa: E731
+    # mostly 1e-3 .. 1e3; one in twelve rates is very slow in the unit of the time axis (a ps axis with a 100 us component)
+    rate = lambda: float(10.0 ** (rng.uniform(-3, 3) if rng.integers(12) else rng.uniform(-12, -8)))  # noqa: E731
     km1, km2 = [], []
     if topology == "chain":
         for i in range(n - 1):
